@@ -2,6 +2,7 @@ package participle
 
 import (
 	"fmt"
+	"reflect"
 	"strings"
 )
 
@@ -10,6 +11,15 @@ import (
 // Productions are always upper cased. Lexer tokens are always lower case.
 func (p *Parser[G]) String() string {
 	return ebnf(p.typeNodes[p.rootType])
+}
+
+// ebnfName returns the production name used for a Go type: its name with an upper-case initial.
+func ebnfName(t reflect.Type) string {
+	name := t.Name()
+	if name == "" { // Anonymous struct types have no name of their own.
+		return "Anonymous"
+	}
+	return strings.ToUpper(name[:1]) + name[1:]
 }
 
 type ebnfp struct {
@@ -52,7 +62,7 @@ func buildEBNF(root bool, n node, seen map[node]bool, p *ebnfp, outp *[]*ebnfp) 
 		}
 
 	case *union:
-		name := strings.ToUpper(n.typ.Name()[:1]) + n.typ.Name()[1:]
+		name := ebnfName(n.typ)
 		if p != nil {
 			p.out += name
 		}
@@ -70,11 +80,11 @@ func buildEBNF(root bool, n node, seen map[node]bool, p *ebnfp, outp *[]*ebnfp) 
 		}
 
 	case *custom:
-		name := strings.ToUpper(n.typ.Name()[:1]) + n.typ.Name()[1:]
+		name := ebnfName(n.typ)
 		p.out += name
 
 	case *strct:
-		name := strings.ToUpper(n.typ.Name()[:1]) + n.typ.Name()[1:]
+		name := ebnfName(n.typ)
 		if p != nil {
 			p.out += name
 		}
